@@ -2121,6 +2121,20 @@ def _trampoline(f):
     """Trampoline a function repeatedly until it is finished recurring to help
     avoid stack growth."""
 
+    if inspect.iscoroutinefunction(f):
+
+        @functools.wraps(f)
+        async def async_trampoline(*args, **kwargs):
+            while True:
+                ret = await f(*args, **kwargs)
+                if isinstance(ret, _TrampolineArgs):
+                    args = ret.args
+                    kwargs = ret.kwargs
+                    continue
+                return ret
+
+        return async_trampoline
+
     @functools.wraps(f)
     def trampoline(*args, **kwargs):
         while True:
